@@ -16,7 +16,7 @@ func c12Tier(tier string) int {
 	if tier == "thorough" {
 		return 600000
 	}
-	return 12000
+	return 60000
 }
 
 // equivalent compares two values from the native and the alias twin structurally.
